@@ -10,10 +10,21 @@ import (
 	"pgregory.net/rapid"
 )
 
+// lockID is the k-th lease identifier of the pool: two ordinary ones, the
+// all-zero identifier and the all-0xff one (any 32 bytes are an identifier).
 func lockID(k int) wtxmgr.LockID {
 	var id wtxmgr.LockID
-	id[0] = byte(k + 1)
-	id[31] = 0x77
+	switch k {
+	case 2:
+		// all zero
+	case 3:
+		for i := range id {
+			id[i] = 0xff
+		}
+	default:
+		id[0] = byte(k + 1)
+		id[31] = 0x77
+	}
 	return id
 }
 
@@ -73,7 +84,7 @@ func (s *Sim) drawLeaseTarget(t *rapid.T, preferLeased bool) (wire.OutPoint, boo
 // ActLease leases an output.
 func (s *Sim) ActLease(t *rapid.T) bool {
 	op, known := s.drawLeaseTarget(t, rapid.IntRange(0, 2).Draw(t, "relock") == 0)
-	idk := rapid.IntRange(0, 2).Draw(t, "lockid")
+	idk := rapid.IntRange(0, 3).Draw(t, "lockid")
 	id := lockID(idk)
 	var dur time.Duration
 	switch rapid.IntRange(0, 3).Draw(t, "durkind") {
@@ -133,7 +144,7 @@ func (s *Sim) ActRelease(t *rapid.T) bool {
 	now := s.Clock.Now()
 	cur, active := s.L.Leases[op]
 	active = active && now.Before(cur.Expiry)
-	idk := rapid.IntRange(0, 2).Draw(t, "lockid")
+	idk := rapid.IntRange(0, 3).Draw(t, "lockid")
 	id := lockID(idk)
 	if active && rapid.IntRange(0, 2).Draw(t, "sameid") > 0 {
 		id = cur.ID
